@@ -169,4 +169,66 @@ theorem sampling_concat_eq_kMerge {lt : Int → Int → Bool} {tl : Elem → Ele
   rw [lastOffs_append_singleton, takes_lens] at hcc
   exact hcc.symm
 
+/-! ### the splitters the code uses are non-decreasing -/
+
+theorem insertKey_perm (lt : Int → Int → Bool) (x : Int) : ∀ ys, (insertKey lt x ys).Perm (x :: ys)
+  | [] => List.Perm.refl _
+  | y :: ys => by
+    unfold insertKey
+    split
+    · exact ((insertKey_perm lt x ys).cons y).trans (List.Perm.swap x y ys)
+    · exact List.Perm.refl _
+
+theorem sortKeys_perm (lt : Int → Int → Bool) : ∀ l, (sortKeys lt l).Perm l
+  | [] => List.Perm.refl _
+  | x :: l => by
+    show (insertKey lt x (sortKeys lt l)).Perm (x :: l)
+    exact (insertKey_perm lt x _).trans ((sortKeys_perm lt l).cons x)
+
+theorem insertKey_sorted {lt : Int → Int → Bool} (hlt : StrictWeak lt) (x : Int) :
+    ∀ ys, ys.Pairwise (fun a b => lt b a = false) → (insertKey lt x ys).Pairwise (fun a b => lt b a = false)
+  | [], _ => List.pairwise_singleton _ _
+  | y :: ys, hs => by
+    have hy := List.pairwise_cons.mp hs
+    unfold insertKey
+    split
+    · rename_i hyx
+      refine List.pairwise_cons.mpr ⟨?_, insertKey_sorted hlt x ys hy.2⟩
+      intro z hz
+      rcases List.mem_cons.mp ((insertKey_perm lt x ys).subset hz) with hz | hz
+      · subst hz; exact hlt.asymm _ _ hyx
+      · exact hy.1 z hz
+    · rename_i hyx
+      have hyx' : lt y x = false := by simpa using hyx
+      refine List.pairwise_cons.mpr ⟨?_, hs⟩
+      intro z hz
+      rcases List.mem_cons.mp hz with hz | hz
+      · subst hz; exact hyx'
+      · exact hlt.le_trans hyx' (hy.1 z hz)
+
+/-- model component: the sorted samples (`std::(stable_)sort(samples, comp)`) are non-decreasing, so the
+splitter values read at non-decreasing indices satisfy the hypothesis of `sampling_concat_eq_kMerge` -/
+theorem sortKeys_sorted {lt : Int → Int → Bool} (hlt : StrictWeak lt) :
+    ∀ l, (sortKeys lt l).Pairwise (fun a b => lt b a = false)
+  | [] => List.Pairwise.nil
+  | x :: l => insertKey_sorted hlt x _ (sortKeys_sorted hlt l)
+
+/-- values read from a non-decreasing list at non-decreasing positions are non-decreasing -/
+theorem pairwise_map_getD {lt : Int → Int → Bool} (hlt : StrictWeak lt) {sorted : List Int}
+    (hs : sorted.Pairwise (fun a b => lt b a = false)) :
+    ∀ (idx : List Nat), idx.Pairwise (· ≤ ·) → (∀ i ∈ idx, i < sorted.length) →
+      (idx.map (fun i => sorted.getD i 0)).Pairwise (fun a b => lt b a = false) := by
+  intro idx hidx hb
+  rw [List.pairwise_map]
+  refine List.Pairwise.imp_of_mem ?_ hidx
+  intro i j hi hj hij
+  have hi' := hb i hi
+  have hj' := hb j hj
+  have e1 : sorted.getD i 0 = sorted[i] := by simp [List.getD, List.getElem?_eq_getElem hi']
+  have e2 : sorted.getD j 0 = sorted[j] := by simp [List.getD, List.getElem?_eq_getElem hj']
+  rw [e1, e2]
+  rcases Nat.lt_or_eq_of_le hij with h | h
+  · exact (List.pairwise_iff_getElem.mp hs) i j hi' hj' h
+  · subst h; exact hlt.irrefl _
+
 end TlxVerif.C07
